@@ -227,6 +227,77 @@ def gen_pat(R, bodies: list[str], empty_prob: float = 0.08) -> Pat:
     return Pat([(n_, a, b) for n_, a, b, _s in alts])
 
 
+class RawPat:
+    """a pattern given as its text (pattern-only cases: no oracle needs its structure)"""
+
+    def __init__(self, text: str):
+        self._text = text
+        self.alts = [(False, False, text)] if text else []
+
+    def text(self, minus: bool) -> str:
+        return self._text
+
+    anchored = False
+
+
+P_BODIES = FILE_BODIES + DIR_BODIES + [
+    '{a,b}', '{a,ab}*', '{a,b,c}{,.b}', '{a,b}/{a,b}', 'a{b', '{}', '{,}', '{a..c}', '**/*', '*/', '**/', 'a/', '/', '', '', 'a//a',
+    '\\a', '\\*', '[[:alpha:]]*', '[[:upper:]]', '[!.]*', '[.]*', '[]a]', '[a-', '!', '-', '!a', '-a', '(a)b', '!(a)b', '-(a)',
+    '@(a|!(b))', '*(.)h*', '+(a|.h)', '?(.)h', '.', '..', '.*/*', '*/.*', '**/.h*', 'SKIPME', 'a.B', '[A-Z]*', 'b.TXT',
+    '\\x61*', '\\141', '\\N{LATIN SMALL LETTER A}', '\\N{NO SUCH NAME}', '\\u0061b', '\\x2e*', '\\/a', 'a\\/a', '*\n']
+P_PREFIX = ['', '', '', '', '!', '-', '/', '/', '!/', '-/', '//', '!!', '\\!', '\\-']
+
+
+def gen_wild(R, empty_prob: float = 0.08) -> RawPat:
+    """pattern texts for K7-patterns: `|`-joined alternatives with `!` / `-` / `/` prefixes in any combination, braces,
+    brackets, extended groups, escapes, RAWCHARS spellings — no oracle has to understand them"""
+    if R.random() < empty_prob:
+        return RawPat('')
+    n = R.choice([1, 1, 1, 2, 2, 3, 4])
+    return RawPat('|'.join(R.choice(P_PREFIX) + R.choice(P_BODIES) for _ in range(n)))
+
+
+def gen_flags_wild(R, WM, cyclic: bool) -> int:
+    fl = gen_flags(R, WM, cyclic)
+    if R.random() < 0.25:
+        fl |= WM.RAWCHARS
+    if R.random() < 0.04:
+        fl |= R.choice([1 << 5, 1 << 6, 1 << 10, 1 << 13 | 1 << 5, 1 << 14, 1 << 16, 1 << 17, 1 << 33, (1 << 40) - 1 & ~WM.SYMLINKS])
+    return fl
+
+
+def pattern_fields(flags: int, fpt: str, xpt: str, isb: bool) -> str:
+    """the `B:` (bracex expansion of the normalised pattern) and `N:` (unicodedata.lookup) fields of `wcwalkp` / `wcspecp`"""
+    common.import_wcmatch()
+    from wcmatch import _wcparse as W, util, wcmatch as WM
+    import k3_norm
+    import k4_lists
+    out = []
+    pats = [p for p in (fpt, xpt) if p]
+    if flags & WM.BRACE:
+        done = set()
+        for p in pats:
+            pp = p.encode('latin-1') if isb else p
+            try:
+                q = util.norm_pattern(pp, False, bool(flags & WM.RAWCHARS))     # POSIX host, no FORCEWIN: not normalised
+            except Exception:  # noqa: BLE001
+                continue
+            if q in done:
+                continue
+            done.add(q)
+            try:
+                cnt, items = k4_lists.brace_info(q)
+            except Exception:  # noqa: BLE001   (`expand_braces`: any other bracex exception yields the pattern itself)
+                cnt, items = 1, [q]
+            out.append('B:' + enc(q) + f':{cnt}:' + ('?' if items is None else (','.join(enc(i) for i in items) if items else '-')))
+    if flags & WM.RAWCHARS:
+        for p in pats:
+            lf = k3_norm.lookup_fields(p).replace('name:', 'N:').strip()
+            if lf:
+                out.append(lf)
+    return (' ' + ' '.join(out)) if out else ''
+
+
 class Decider:
     """The pattern decisions through the public API, as the property states them."""
 
@@ -497,7 +568,8 @@ def oracle_fn(spec: str):
 class Case:
     """one tree + configuration: everything needed to run the real code and the model"""
 
-    def __init__(self, root: str, flags: int, fpat: Pat, xpat: Pat, cmp_file_raise=(), cmp_dir_raise=()):
+    def __init__(self, root: str, flags: int, fpat: Pat, xpat: Pat, cmp_file_raise=(), cmp_dir_raise=(),
+                 with_tables: bool = True, isb: bool = False, limit: int | None = None):
         common.import_wcmatch()
         from wcmatch import wcmatch as WM
         self.WM = WM
@@ -509,15 +581,37 @@ class Case:
         self.tree = abstract(root, self.follow)          # raises Cyclic
         self.dec = Decider(flags)
         self.minus = self.dec.minus
-        self.ftab, self.dtab = tables(self.dec, self.tree, fpat, xpat, cmp_file_raise, cmp_dir_raise)
+        self.isb, self.limit = isb, limit                # bytes root + bytes patterns; `limit=` (None: the default)
+        if with_tables:
+            self.ftab, self.dtab = tables(self.dec, self.tree, fpat, xpat, cmp_file_raise, cmp_dir_raise)
+        else:
+            self.ftab = self.dtab = None                 # pattern-only case (K7-patterns): no oracle involved
         self.ee = ('1' if not fpat.alts else '0') + ('1' if not xpat.alts else '0')
         self.tree_s = enc_tree(self.tree)
 
     def describe(self) -> dict:
-        return {'tree': self.tree_s, 'tree_readable': repr(self.tree), 'flags': self.flags,
-                'flag_names': flag_names(self.WM, self.flags),
-                'file_pattern': self.fpat.text(self.minus), 'exclude_pattern': self.xpat.text(self.minus),
-                'cmp_file_raise': list(self.cmp_file_raise), 'cmp_dir_raise': list(self.cmp_dir_raise)}
+        d = {'tree': self.tree_s, 'tree_readable': repr(self.tree), 'flags': self.flags,
+             'flag_names': flag_names(self.WM, self.flags),
+             'file_pattern': self.fpat.text(self.minus), 'exclude_pattern': self.xpat.text(self.minus),
+             'cmp_file_raise': list(self.cmp_file_raise), 'cmp_dir_raise': list(self.cmp_dir_raise)}
+        if self.isb:
+            d['bytes'] = True
+        if self.limit is not None:
+            d['limit'] = self.limit
+        return d
+
+    # ---- the pattern-level commands (`wcwalkp` / `wcspecp`): the two pattern strings instead of the tables
+    def _p_head(self) -> str:
+        fpt, xpt = self.fpat.text(self.minus), self.xpat.text(self.minus)
+        lim = 1000 if self.limit is None else self.limit
+        return f'{self.flags} {int(self.isb)} {lim} {enc(fpt)} {enc(xpt)} {self.tree_s}'
+
+    def model_line_p(self, script: Script | None, oracle: str) -> str:
+        sc = script.driver_script() if script is not None else '-'
+        return f'wcwalkp {self._p_head()} {sc} {oracle}{pattern_fields(self.flags, self.fpat.text(self.minus), self.xpat.text(self.minus), self.isb)}'
+
+    def spec_line_p(self) -> str:
+        return f'wcspecp {self._p_head()}{pattern_fields(self.flags, self.fpat.text(self.minus), self.xpat.text(self.minus), self.isb)}'
 
     def model_line(self, script: Script | None, oracle: str) -> str:
         sc = script.driver_script() if script is not None else '-'
@@ -534,7 +628,23 @@ class Case:
         return Script(self.root, cmp_file_raise=self.cmp_file_raise, cmp_dir_raise=self.cmp_dir_raise, **kw)
 
     def obj(self, script: Script):
-        return rec_class()(self.root, self.fpat.text(self.minus), self.xpat.text(self.minus), self.flags, k7=script)
+        fpt, xpt = self.fpat.text(self.minus), self.xpat.text(self.minus)
+        kw = {} if self.limit is None else {'limit': self.limit}
+        if self.isb:
+            return rec_class()(os.fsencode(self.root), fpt.encode('latin-1'), xpt.encode('latin-1'), self.flags, k7=script, **kw)
+        return rec_class()(self.root, fpt, xpt, self.flags, k7=script, **kw)
+
+    def real_run_p(self, script: Script) -> str:
+        """`real_run`, with the exceptions of the constructor (pattern compilation) in the driver's `err <kind>` format"""
+        from wcmatch import _wcparse as W
+        try:
+            return self.real_run(script)
+        except W.PatternLimitException:
+            return 'err PatternLimit'
+        except SyntaxError:
+            return 'err SyntaxError'
+        except KeyError:
+            return 'err KeyError'
 
     def real_run(self, script: Script) -> str:
         """one imatch() run consumed to the end: the event sequence + K<skipped>, in the driver's format"""
@@ -609,7 +719,7 @@ def _interleave(log: list[str], res: list) -> list[str]:
 
 def flag_names(WM, flags: int) -> list[str]:
     return [n for n in ('RECURSIVE', 'HIDDEN', 'SYMLINKS', 'FILEPATHNAME', 'DIRPATHNAME', 'MATCHBASE', 'GLOBSTAR',
-                        'EXTMATCH', 'BRACE', 'MINUSNEGATE', 'IGNORECASE', 'CASE') if flags & getattr(WM, n)]
+                        'EXTMATCH', 'BRACE', 'MINUSNEGATE', 'IGNORECASE', 'CASE', 'RAWCHARS') if flags & getattr(WM, n)]
 
 
 def gen_flags(R, WM, cyclic: bool) -> int:
